@@ -86,34 +86,41 @@ pub open spec fn sp_filters(s: Seq<u8>, k: nat, header_size: nat) -> Option<(Seq
 
 pub open spec fn all_zero(s: Seq<u8>) -> bool { forall|i: int| 0 <= i < s.len() ==> s[i] == 0u8 }
 
-/// `s` = the whole header after the size byte (header_size = real size - 5 bytes).
-pub open spec fn sp_block_header(s: Seq<u8>, header_size: nat) -> Option<BlockHdrS> {
+/// flags byte and the two optional size fields: (number of filters, packed, unpacked, bytes used)
+pub open spec fn sp_bh_prefix(s: Seq<u8>) -> Option<(nat, Option<nat>, Option<nat>, nat)> {
     if s.len() < 1 { None }
     else {
         let flags = s[0];
         if (flags / 4) % 16 != 0 { None }     // reserved bits 2-5
         else {
             let nf: nat = (flags % 4) as nat + 1;
-            let p1 = if (flags / 64) % 2 == 1 { sp_multibyte(s.skip(1), 0, 0) } else { Some((0nat, 0nat)) };
+            let has_p = (flags / 64) % 2 == 1;
+            let has_u = flags >= 128;
+            let p1 = if has_p { sp_multibyte(s.skip(1), 0, 0) } else { Some((0nat, 0nat)) };
             match p1 {
                 None => None,
                 Some((pk, n1)) => {
-                    let p2 = if flags >= 128 { sp_multibyte(s.skip(1 + n1 as int), 0, 0) } else { Some((0nat, 0nat)) };
+                    let p2 = if has_u { sp_multibyte(s.skip(1 + n1 as int), 0, 0) } else { Some((0nat, 0nat)) };
                     match p2 {
                         None => None,
-                        Some((up, n2)) => match sp_filters(s.skip((1 + n1 + n2) as int), nf, header_size) {
-                            None => None,
-                            Some((fs, used)) => {
-                                if !all_zero(s.skip((1 + n1 + n2 + used) as int)) { None }
-                                else { Some(BlockHdrS {
-                                    packed: if (flags / 64) % 2 == 1 { Some(pk) } else { None },
-                                    unpacked: if flags >= 128 { Some(up) } else { None },
-                                    filters: fs }) }
-                            }
-                        },
+                        Some((up, n2)) => Some((nf, if has_p { Some(pk) } else { None }, if has_u { Some(up) } else { None }, 1 + n1 + n2)),
                     }
                 }
             }
         }
+    }
+}
+/// filters, then zero padding to the end of the header
+pub open spec fn sp_bh_finish(packed: Option<nat>, unpacked: Option<nat>, sf: Seq<u8>, nf: nat, header_size: nat) -> Option<BlockHdrS> {
+    match sp_filters(sf, nf, header_size) {
+        None => None,
+        Some((fs, used)) => if used <= sf.len() && all_zero(sf.skip(used as int)) { Some(BlockHdrS { packed: packed, unpacked: unpacked, filters: fs }) } else { None },
+    }
+}
+/// `s` = the whole header after the size byte (header_size = real size - 5 bytes).
+pub open spec fn sp_block_header(s: Seq<u8>, header_size: nat) -> Option<BlockHdrS> {
+    match sp_bh_prefix(s) {
+        None => None,
+        Some((nf, pk, up, off)) => if off <= s.len() { sp_bh_finish(pk, up, s.skip(off as int), nf, header_size) } else { None },
     }
 }
